@@ -232,7 +232,7 @@ func runCryptobyteProgram(in []byte, prog []int) bool {
 			v := new(big.Int)
 			ok = s.ReadASN1Integer(v)
 		case 14:
-			var v []byte
+			var v int16
 			ok = s.ReadASN1Integer(&v)
 		case 15:
 			var v int
